@@ -120,6 +120,14 @@ fn hdr(v: u8, ty: u8, session: u16, len: u32) -> Vec<u8> {
     o
 }
 
+/// The data a source serves: the full set and the retained diff.
+#[derive(Clone)]
+struct Data { name: String, full: Vec<Item>, diff: Vec<(Item, bool)> }
+
+impl Data {
+    fn base() -> Data { Data { name: "base".into(), full: full_items(), diff: diff_items() } }
+}
+
 fn full_items() -> Vec<Item> {
     vec![
         Item::V4 { addr: [10, 0, 0, 0], len: 8, max: 24, asn: 65000 },
@@ -153,13 +161,13 @@ struct SrcData {
 struct Src(Arc<SrcData>);
 
 impl Src {
-    fn new() -> Src {
+    fn new(data: &Data) -> Src {
         Src(Arc::new(SrcData {
             ready: true,
             state: State::from_parts(SESSION, Serial(SERIAL)),
             timing: Timing { refresh: REFRESH, retry: RETRY, expire: EXPIRE },
-            full: full_items().iter().map(|i| i.to_lib()).collect(),
-            diff: diff_items().iter().map(|(i, a)| (i.to_lib(), if *a { Action::Announce } else { Action::Withdraw })).collect(),
+            full: data.full.iter().map(|i| i.to_lib()).collect(),
+            diff: data.diff.iter().map(|(i, a)| (i.to_lib(), if *a { Action::Announce } else { Action::Withdraw })).collect(),
         }))
     }
 }
@@ -301,7 +309,7 @@ enum Negotiated {
 /// client Error PDU (RFC 8210 section 10 makes error reports fatal for the
 /// session while the property text promises nothing either way), and at a
 /// query whose version contradicts a `Maybe`.
-fn model(seq: &[Q], lens: &[usize]) -> (Vec<Expect>, Vec<usize>, bool) {
+fn model(seq: &[Q], lens: &[usize], data: &Data) -> (Vec<Expect>, Vec<usize>, bool) {
     let mut out = Vec::new();
     // due[i]: number of client octets after which response i is determined
     // (all of a well-formed query; the 8 header octets of anything that is
@@ -348,7 +356,7 @@ fn model(seq: &[Q], lens: &[usize]) -> (Vec<Expect>, Vec<usize>, bool) {
         match *q {
             Q::Reset(_) => {
                 unit.extend(hdr(v, 3, SESSION, 8));
-                for i in full_items() { if i.min_version() <= v { unit.extend(i.wire(v, true)) } }
+                for i in &data.full { if i.min_version() <= v { unit.extend(i.wire(v, true)) } }
                 unit.extend(end_of_data(v));
             }
             Q::Serial(_, from) if from == SERIAL => {
@@ -357,7 +365,7 @@ fn model(seq: &[Q], lens: &[usize]) -> (Vec<Expect>, Vec<usize>, bool) {
             }
             Q::Serial(_, from) if from == SERIAL - 1 => {
                 unit.extend(hdr(v, 3, SESSION, 8));
-                for (i, a) in diff_items() { if i.min_version() <= v { unit.extend(i.wire(v, a)) } }
+                for (i, a) in &data.diff { if i.min_version() <= v { unit.extend(i.wire(v, *a)) } }
                 unit.extend(end_of_data(v));
             }
             Q::Serial(..) => unit.extend(hdr(v, 8, 0, 8)),
@@ -455,6 +463,8 @@ struct Obs {
     livelock: bool,
     spin: bool,
     flood: bool,
+    /// The connection was still open at the last quiescence before the client closed.
+    alive_before_close: bool,
 }
 
 thread_local! {
@@ -471,8 +481,15 @@ fn execute(src: &Src, stream_bytes: &[u8], script: &[Ev]) -> Obs {
         let h = tokio::spawn(server.run());
         // the connection task starts and parks in its first receive
         let q0 = quiesce(&[&ctl]).await;
-        let tr = play(&ctl, stream_bytes, Some(&mut notify), script).await;
+        // up to the close, then the rest: in between, is the connection still there?
+        let ci = script.iter().position(|e| matches!(e, Ev::Close)).unwrap_or(script.len());
+        let mut tr = play(&ctl, stream_bytes, Some(&mut notify), &script[..ci]).await;
+        let alive = !ctl.dropped();
+        let tr2 = play(&ctl, &[], Some(&mut notify), &script[ci..]).await;
+        tr.marks.extend(tr2.marks.into_iter().map(|m| Mark { at: m.at + ci, ..m }));
+        tr.spin |= tr2.spin;
         Obs {
+            alive_before_close: alive,
             out: ctl.output(), marks: tr.marks, consumed: ctl.consumed(), updates: ctl.updates(),
             conn_ended: ctl.dropped(), server_ended: h.is_finished(), conn_panicked: ctl.dropped_in_panic(),
             livelock: ctl.livelock(), spin: tr.spin || q0.spin, flood: ctl.flood(),
@@ -580,7 +597,8 @@ fn main() {
     ctx.assume("the harness' PayloadSource (fixed data set, session 0x1234, serial 7, one retained diff) is the data the responses must carry");
     ctx.assume("writes are accepted at once, except for the 1-octet-write and held-back-response variants at deviation <= 1; notifications fired before the connection has subscribed are out of scope");
 
-    let src = match guard(Src::new) {
+    let base = Data::base();
+    let src = match guard(|| Src::new(&base)) {
         Ok(s) => s,
         Err(p) => {
             // the library panics while the payload items are constructed: a finding, not a machinery failure
@@ -604,7 +622,7 @@ fn main() {
                     qs: idx.iter().map(|i| alpha[*i].q).collect(),
                     npdus: idx.len(),
                     bounds: { let mut acc = 0; let mut b = vec![0usize]; for i in idx.iter() { acc += alpha[*i].bytes.len(); b.push(acc) } b },
-                    due: model(&idx.iter().map(|i| alpha[*i].q).collect::<Vec<_>>(), &idx.iter().map(|i| alpha[*i].bytes.len()).collect::<Vec<_>>()).1,
+                    due: model(&idx.iter().map(|i| alpha[*i].q).collect::<Vec<_>>(), &idx.iter().map(|i| alpha[*i].bytes.len()).collect::<Vec<_>>(), &Data::base()).1,
                 });
             }
             if left == 0 { return }
@@ -643,7 +661,7 @@ fn main() {
         sp.eval();
         let wit = || format!("stream={} hex={} sched={}", st.names, hex(&st.bytes), render_script(&script));
         let lens: Vec<usize> = st.bounds.windows(2).map(|w| w[1] - w[0]).collect();
-        let (expect, _, complete) = model(&st.qs, &lens);
+        let (expect, _, complete) = model(&st.qs, &lens, &base);
         if expect.iter().any(|e| matches!(e, Expect::Exact(_))) { sp.nontrivial(1) }
         ctx.check("C08.ref.model", wit, || {
             if obs.conn_panicked { return Err("connection task panicked".into()) }
